@@ -1,6 +1,7 @@
 import TinyFlux.Mirror.Ops
 import TinyFlux.Mirror.Database
 import TinyFlux.Mirror.Closed
+import TinyFlux.Mirror.DbRemove
 /-!
 # C02 over the translated source: what `Index.remove` / `Index.update` of index.py do to the index after a removal
 
@@ -54,6 +55,28 @@ theorem translated_remove_helper_closed (norm : Point → Point) (g : DSelf) (q 
         ∧ GWF g'._index
     | .error _ => ∃ e', DatabaseImpl._remove_helper translatedExt g q m = .error e' :=
   remove_helper_closed norm g q m hg hts htemp hlen
+
+/-- the public entry points `TinyFlux.remove(query, measurement)` and `TinyFlux.drop_measurement(name)` as translated:
+    what the Model's `step` computes for `.remove` / `.drop` once `readOp` has run -/
+theorem translated_remove (norm : Point → Point) (g : DSelf) (q : Query) (m : Option String)
+    (hg : GWF g._index) (hts : g._index._timestamps.length = g._index._storage_pos_sorted_by_ts.length)
+    (htemp : g._storage._temp = [])
+    (hlen : g._auto_index = true → g._index._num_items = g._storage._items.length) :
+    match (absDB norm g).removeHelper q m with
+    | .ok (s', n) => ∃ g', DatabaseImpl.remove translatedExt g q m = .ok (g', n) ∧ StateEq (absDB norm g') s'
+        ∧ GWF g'._index
+    | .error _ => ∃ e', DatabaseImpl.remove translatedExt g q m = .error e' :=
+  db_remove_closed norm g q m hg hts htemp hlen
+
+theorem translated_drop_measurement (norm : Point → Point) (g : DSelf) (name : String)
+    (hg : GWF g._index) (hts : g._index._timestamps.length = g._index._storage_pos_sorted_by_ts.length)
+    (htemp : g._storage._temp = [])
+    (hlen : g._auto_index = true → g._index._num_items = g._storage._items.length) :
+    match (absDB norm g).removeHelper (.meas (.cmp .eq (.str name))) (some name) with
+    | .ok (s', n) => ∃ g', DatabaseImpl.drop_measurement translatedExt g name = .ok (g', n) ∧ StateEq (absDB norm g') s'
+        ∧ GWF g'._index
+    | .error _ => ∃ e', DatabaseImpl.drop_measurement translatedExt g name = .error e' :=
+  db_drop_closed norm g name hg hts htemp hlen
 
 /-- `TinyFlux._reset_database` as translated: the Model's `resetDatabase`, exactly -/
 theorem translated_reset_database (norm : Point → Point) (g : DSelf) :
